@@ -341,6 +341,13 @@ def writer_vs_grammar(ctx, rep):
                         if arm_accepts(a["pattern"], seq):
                             arm = a
                             break
+            if arm is None or not [s for s in arm["structs"] if s["path"].startswith("Operation::")]:
+                # the operation is not built in an arm of the command's own match_nodes! (carrier structs, free helpers, values
+                # passing through a tuple): evaluate the consumers symbolically on this derivation tree, each token marked with
+                # its position, and read off which grammar child ends up in which field
+                done = _variant_by_evaluation(rep, S, g, cons, cmd, vname, label, txt, base, _holes_under, _variant_field_name, _root_field)
+                if done:
+                    continue
             if arm is None:
                 rep.ob("R1", f"{vname}:{label}:consumer-arm", False, f"no consumer arm of `{cname}` accepts [{', '.join(seq)}]",
                        base["site"], key=f"R1:{vname}:consumer-arm")
@@ -873,6 +880,45 @@ def json_reader_domain(F, rep):
     rep.count("json_reader_refusals", n)
     if n < 4:
         rep.unresolved("R5", "json-reader-table", f"only {n} refusal conditions found in the JSON reader's validation (quantities and ratios expected)")
+
+
+def _variant_by_evaluation(rep, S, g, cons, cmd, vname, label, txt, base, holes_under, variant_field_name, root_field):
+    from consume import Evaluator, marked, find_structs, atoms_in
+    try:
+        E = Evaluator(g, cons)
+        mt = marked(cmd)
+        val = E.consume(mt)
+    except Exception:
+        return False
+    sts = find_structs(val, "Operation::")
+    if not sts:
+        return False
+    built = sts[0][1].split("::")[-1]
+    cname = cmd[0]
+    rep.ob("R1", f"{vname}:{label}:same-variant", built == vname,
+           f"text written for Operation::{vname} parses through `{cname}` back to Operation::{built}" if built == vname else
+           f"text written for Operation::{vname} (`{txt}`) is parsed by `{cname}` into Operation::{built}",
+           base["site"], key=f"R1:{vname}:variant-mismatch")
+    fields = sts[0][2]
+    for i, kid in enumerate(cmd[1]):
+        if not isinstance(kid, tuple) or kid[0] == "ticker":
+            continue
+        marks = atoms_in(E.consume(mt[1][i])) if i < len(mt[1]) else set()
+        if not marks:
+            continue
+        targets = [fn_ for fn_, fv in fields.items() if atoms_in(fv) & marks]
+        if len(targets) != 1:
+            continue
+        target = targets[0]
+        for h in holes_under(kid):
+            names, var = root_field(h.term)
+            vf = variant_field_name(h.term)
+            okf = vf == target and (var in (None, vname))
+            rep.ob("R1", f"{vname}:{label}:{kid[0]}→{target}", okf,
+                   f"grammar position `{kid[0]}` is read into `{target}` and the writer prints `{'.'.join(names)}` there" if okf else
+                   f"grammar position `{kid[0]}` is read into Operation::{vname}.{target} but the writer prints {show(h.term)[:70]} there: fields are swapped on a round trip",
+                   base["site"], key=f"R1:{vname}:{kid[0]}-field")
+    return True
 
 
 def token_conversions(F, rep):
